@@ -167,7 +167,13 @@ def generate(seed, tier="quick"):
             tables.append(t)
             ops.append({"id": oid, "op": "append", "path": p, "table": len(tables) - 1, "variant": t["variant"]})
         elif c < 0.50:
-            t = gen_table(rnd)
+            t = None
+            if rnd.random() < 0.5:
+                # the replacement has the SAME layout (columns, dtypes, units) as what the file holds and differs only in
+                # its metadata (reference epoch) or not at all
+                t = variant(rnd, base, rnd.choice(["tref-conflict", "tref-conflict", "compatible", "polytrend-conflict"]))
+            if t is None:
+                t = gen_table(rnd)
             tables.append(t)
             ops.append({"id": oid, "op": "append_overwrite", "path": p, "table": len(tables) - 1})
             base_of[p] = ("maybe", base, t)
